@@ -65,22 +65,13 @@ def check(run, model, tier):
               any(isinstance(c.func, ast.Attribute) and c.func.attr == 'start' and isinstance(c.func.value, ast.Name) and c.func.value.id == hp for c in n.calls())]
     run.floor('Thread creation sites in the helper', len(creates), 1)
     run.floor('thread start sites in the helper', len(starts), 1)
-    guards = []
-    for t in g.nodes:
-        if t.kind != 'test':
-            continue
-        vals = t.ast.values if isinstance(t.ast, ast.BoolOp) and isinstance(t.ast.op, ast.Or) else None
-        if vals and len(vals) == 2:
-            a, b = vals
-            a_none = isinstance(a, ast.Compare) and isinstance(a.left, ast.Name) and a.left.id == hp and isinstance(a.ops[0], ast.Is) \
-                and isinstance(a.comparators[0], ast.Constant) and a.comparators[0].value is None
-            inner, pol = strip_not(b)
-            b_dead = isinstance(inner, ast.Call) and isinstance(inner.func, ast.Attribute) and inner.func.attr == 'is_alive' \
-                and isinstance(inner.func.value, ast.Name) and inner.func.value.id == hp and not pol
-            if a_none and b_dead:
-                guards.append(t)
+    from sa.boolflow import values_at
+    k_none, k_alive = '%s is None' % hp, '%s.is_alive()' % hp
     for n in creates + starts:
-        ok = any(guarded_by_edge(g, n, t, 'true') for t in guards)
+        # path-sensitive: wherever a thread is created/started, the handle that came in was None or not alive (whatever the shape of the tests)
+        vals = values_at(g, n, {k_none, k_alive})
+        ok = bool(vals) and all(v.get(k_none) is True or v.get(k_alive) is False or (n in starts and k_none not in v and k_alive not in v and
+                                                                                      any(g.dominates(c_, n) for c_ in creates)) for v in vals)
         run.inst('ORDER.start', ih, '%s only when no live thread is stored' % ('Thread()' if n in creates else 'start()'), ok,
                  '' if ok else 'a delivery thread is created/started without first establishing that the stored handle is None or dead: '
                  'repeated start() calls accumulate threads', node=n.ast, obligation=True)
@@ -143,7 +134,8 @@ def check(run, model, tier):
         ok = any(gh.dominates(p, j) for p in puts)
         run.inst('ORDER.stop', sh, 'wake-up put precedes the join', ok,
                  '' if ok else 'join() is reached without a wake-up item having been put: the thread is blocked in get() and join never returns', node=j.ast, obligation=True)
-        alive = [t for t in gh.nodes if t.kind == 'test' and 'is_alive' in norm(t.ast) and guarded_by_edge(gh, j, t, 'true')]
+        jv = values_at(gh, j, {'%s.is_alive()' % tp, '%s is None' % tp})
+        alive = bool(jv) and all(v.get('%s.is_alive()' % tp) is True for v in jv)
         run.inst('ORDER.stop', sh, 'join only a live thread', bool(alive), 'join is attempted on a thread that may never have started', node=j.ast, obligation=True)
     # ---- delivery loops end only through the shared run event
     from props.c06 import runner_params
